@@ -138,6 +138,11 @@ func (f *File) isValidAlias(alias string) bool {
 	if IsReservedWord(alias) {
 		return false
 	}
+	// "C" always is the cgo pseudo-package, which can't be renamed and is imported for a preamble
+	// even if it has no entry in the imports, and a package can't be imported as init
+	if alias == "C" || alias == "init" {
+		return false
+	}
 	// the import alias is invalid if it's already been registered
 	for _, v := range f.imports {
 		if alias == v.name {
